@@ -178,8 +178,8 @@ def bucketMoney (unit L s : Nat) (dom : List Addr) (A : AMap) : Nat :=
 def bucketUnits (unit s : Nat) (dom : List Addr) (A : AMap) : Nat :=
   (dom.map (fun k => if (A k).status = s then acctUnits unit (A k) else 0)).sum
 
-/-- `Sum A L`: per-status sums of money (with pending rewards at level `L`) and reward units over the accounts `dom` -/
-def Sum (unit : Nat) (dom : List Addr) (A : AMap) (L : Nat) : AccountTotals :=
+/-- `Sum A L` (named `SumOf`: `Sum` is the core sum type): per-status sums of money (with pending rewards at level `L`) and reward units over the accounts `dom` -/
+def SumOf (unit : Nat) (dom : List Addr) (A : AMap) (L : Nat) : AccountTotals :=
   { online := ⟨bucketMoney unit L 1 dom A, bucketUnits unit 1 dom A⟩,
     offline := ⟨bucketMoney unit L 0 dom A, bucketUnits unit 0 dom A⟩,
     notParticipating := ⟨bucketMoney unit L 2 dom A, bucketUnits unit 2 dom A⟩,
